@@ -23,7 +23,7 @@ DEPTH = {"quick": 2, "thorough": 3}
 RULE = ("exhaustive: every operation applied in every distinct model state reachable by <=2 (quick) / <=3 (thorough) "
         "operations (one representative prefix per state, every step compared); generated: random sequences of <=25 "
         "operations. non-trivial: the sequence contains a clear followed by a lookup, or a kwargs metamodel request "
-        "followed by a plain one, or a case-variant lookup of a registered name; distinct by canonical JSON")
+        "followed by a plain one, or a case-variant lookup of a registered name; plus every pattern (length 2-4) of metamodel lookups with / without arguments after a factory / instance registration; distinct by canonical JSON")
 ASSUMPTIONS = [
     "entry-point registrations are those visible through importlib.metadata in this environment",
     "LanguageDesc patterns are strings; factories accept arbitrary keyword arguments",
